@@ -1,4 +1,207 @@
-import EpsModel.Header
+/-
+  C10 — Any corruption of the header's checked fields yields the specific error.
+
+  The 29 fixed bytes of a header are six little-endian fields; *every* content of those bytes is
+  `fixedHdr m maj min us sth sah` for the field values it decodes to, so the decision theorem below
+  covers every single-bit flip, and every other corruption, of the fixed bytes at once.
+  `check_header` is one function shared by both deserializers, so the statements about
+  `checkHeader` hold for both modes; `deFull_corrupt` / `deEps_corrupt` lift them.
+-/
+import EpsModel.Lemmas.HeaderL
 namespace Eps.C10
-theorem placeholder : (1 : Nat) = 1 := rfl
+open Eps
+
+/-- The 29 fixed bytes holding the given field values. -/
+def fixedHdr (m maj min us sth sah : Nat) : B :=
+  leBytes 8 m ++ leBytes 2 maj ++ leBytes 2 min ++ leBytes 1 us ++ leBytes 8 sth ++ leBytes 8 sah
+
+/-- What `check_header` must answer for given field values, in the published order of the checks. -/
+def expected (th ah m maj min us sth sah : Nat) : Option Err :=
+  if m ≠ magic then (if m = magicRev then some .endianness else some (.magic m))
+  else if maj ≠ versionMajor then some (.major maj)
+  else if min > versionMinor then some (.minor min)
+  else if us ≠ usizeSize then some (.usizeSize us)
+  else if sth ≠ th then some (.wrongTypeHash sth)
+  else if sah ≠ ah then some (.wrongAlignHash sah)
+  else none
+
+/-- Decision theorem: for every content of the fixed bytes (field values in range), followed by
+    an intact type name, `check_header` returns exactly the expected error, carrying the offending
+    value, or accepts; it never panics. -/
+theorem checkHeader_decision (th ah m maj min us sth sah : Nat) (name rest : B)
+    (hm : m < 2^64) (hmaj : maj < 2^16) (hmin : min < 2^16) (hus : us < 2^8)
+    (hsth : sth < 2^64) (hsah : sah < 2^64)
+    (hu : validUtf8 name = true) (hl : name.length < 2^63) :
+    checkHeader th ah (fixedHdr m maj min us sth sah ++ (leBytes 8 name.length ++ name) ++ rest) 0 =
+      match expected th ah m maj min us sth sah with
+      | some e => .err e
+      | none => .ok ((), rest, 37 + name.length) := by
+  simp only [checkHeader, fixedHdr, expected, List.append_assoc]
+  rw [readWord_leBytes 8 m _ _ (by omega)]
+  simp only [Res.bind_ok]
+  by_cases h1 : m = magic
+  · subst h1
+    simp only [bne_self_eq_false, Bool.false_eq_true, if_false, ne_eq, not_true_eq_false]
+    rw [readWord_leBytes 2 maj _ _ (by omega)]
+    simp only [Res.bind_ok]
+    by_cases h2 : maj = versionMajor
+    · subst h2
+      simp only [bne_self_eq_false, Bool.false_eq_true, if_false, not_true_eq_false]
+      rw [readWord_leBytes 2 min _ _ (by omega)]
+      simp only [Res.bind_ok]
+      by_cases h3 : min > versionMinor
+      · simp [h3]
+      · simp only [h3, if_false]
+        rw [readWord_leBytes 1 us _ _ (by omega)]
+        simp only [Res.bind_ok]
+        by_cases h4 : us = usizeSize
+        · subst h4
+          simp only [bne_self_eq_false, Bool.false_eq_true, if_false, not_true_eq_false]
+          rw [readWord_leBytes 8 sth _ _ (by omega)]
+          simp only [Res.bind_ok]
+          rw [readWord_leBytes 8 sah _ _ (by omega)]
+          simp only [Res.bind_ok]
+          have := decFullStr_ok name rest (0 + 8 + 2 + 2 + 1 + 8 + 8) hu hl
+          simp only [List.append_assoc] at this
+          rw [this]
+          simp only [Res.bind_ok]
+          by_cases h5 : sth = th
+          · subst h5
+            by_cases h6 : sah = ah
+            · subst h6; simp; omega
+            · simp [h6]
+          · simp [h5]
+        · simp [h4]
+    · simp [h2]
+  · by_cases h1' : m = magicRev
+    · subst h1'
+      have : magicRev ≠ magic := by decide
+      simp [this]
+    · simp [h1, h1']
+
+/-- A valid header (the fields `write_header` writes) is accepted. -/
+theorem expected_valid (th ah : Nat) : expected th ah magic versionMajor versionMinor usizeSize th ah = none := by
+  simp [expected]
+
+/-- Acceptance is *only* possible when every field but the minor version is intact, and the minor
+    version is not above the supported one: any other content of the fixed bytes is an error. -/
+theorem expected_none_iff (th ah m maj min us sth sah : Nat) :
+    expected th ah m maj min us sth sah = none ↔
+      m = magic ∧ maj = versionMajor ∧ min ≤ versionMinor ∧ us = usizeSize ∧ sth = th ∧ sah = ah := by
+  unfold expected
+  constructor
+  · intro h
+    by_cases h1 : m = magic <;> by_cases h2 : maj = versionMajor <;> by_cases h3 : min > versionMinor <;>
+      by_cases h4 : us = usizeSize <;> by_cases h5 : sth = th <;> by_cases h6 : sah = ah <;>
+      simp_all <;> (try split at h <;> simp_all) <;> omega
+  · rintro ⟨rfl, rfl, h3, rfl, rfl, rfl⟩
+    have : ¬ (min > versionMinor) := by omega
+    simp [this]
+
+/-- One altered field: the specific error with the offending value (the cases of the property). -/
+theorem err_magic (th ah m maj min us sth sah : Nat) (h : m ≠ magic) (h' : m ≠ magicRev) :
+    expected th ah m maj min us sth sah = some (.magic m) := by simp [expected, h, h']
+theorem err_endianness (th ah maj min us sth sah : Nat) :
+    expected th ah magicRev maj min us sth sah = some .endianness := by
+  have : magicRev ≠ magic := by decide
+  simp [expected, this]
+theorem err_major (th ah maj min us sth sah : Nat) (h : maj ≠ versionMajor) :
+    expected th ah magic maj min us sth sah = some (.major maj) := by simp [expected, h]
+theorem err_minor (th ah min us sth sah : Nat) (h : min > versionMinor) :
+    expected th ah magic versionMajor min us sth sah = some (.minor min) := by simp [expected, h]
+theorem err_usize (th ah min us sth sah : Nat) (hmin : min ≤ versionMinor) (h : us ≠ usizeSize) :
+    expected th ah magic versionMajor min us sth sah = some (.usizeSize us) := by
+  have : ¬ (min > versionMinor) := by omega
+  simp [expected, this, h]
+theorem err_typeHash (th ah min sth sah : Nat) (hmin : min ≤ versionMinor) (h : sth ≠ th) :
+    expected th ah magic versionMajor min usizeSize sth sah = some (.wrongTypeHash sth) := by
+  have : ¬ (min > versionMinor) := by omega
+  simp [expected, this, h]
+theorem err_alignHash (th ah min sah : Nat) (hmin : min ≤ versionMinor) (h : sah ≠ ah) :
+    expected th ah magic versionMajor min usizeSize th sah = some (.wrongAlignHash sah) := by
+  have : ¬ (min > versionMinor) := by omega
+  simp [expected, this, h]
+
+/-- A lower minor version is accepted exactly like the current one. -/
+theorem minor_lower_ok (th ah min : Nat) (h : min ≤ versionMinor) :
+    expected th ah magic versionMajor min usizeSize th ah = none := by
+  have : ¬ (min > versionMinor) := by omega
+  simp [expected, this]
+
+/-- Both deserializers run `check_header` first and propagate its error: whatever follows the
+    header, a header error is the result of `deserialize_full` and of `deserialize_eps`. -/
+theorem deFull_corrupt (H : B → Nat) (T : Ty) (s : B) (e : Err)
+    (h : checkHeader (T.typeHash H) (T.alignHash H) s 0 = .err e) : T.deFull H s = .err e := by
+  simp [Ty.deFull, h]
+theorem deEps_corrupt (H : B → Nat) (T : Ty) (base : Nat) (s : B) (e : Err)
+    (h : checkHeader (T.typeHash H) (T.alignHash H) s 0 = .err e) : T.deEps H base s = .err e := by
+  simp [Ty.deEps, h]
+
+/-- With a lowered minor version the value returned is the one of the intact file (both modes):
+    the header check leaves the same state. -/
+theorem minor_lower_same_state (th ah min : Nat) (name rest : B) (hmin : min ≤ versionMinor)
+    (hth : th < 2^64) (hah : ah < 2^64) (hu : validUtf8 name = true) (hl : name.length < 2^63) :
+    checkHeader th ah (fixedHdr magic versionMajor min usizeSize th ah ++ (leBytes 8 name.length ++ name) ++ rest) 0
+      = checkHeader th ah (wHeader th ah name ++ rest) 0 := by
+  have hmin' : min < 2^16 := by unfold versionMinor at hmin; omega
+  rw [checkHeader_decision th ah magic versionMajor min usizeSize th ah name rest (by decide) (by decide) hmin'
+        (by decide) hth hah hu hl, minor_lower_ok th ah min hmin,
+      checkHeader_wHeader th ah name rest hth hah hu hl, wHeader_length]
+
+/-- Non-vacuity: the header `write_header` writes is `fixedHdr` of the valid fields plus the name. -/
+example (th ah : Nat) (name : B) :
+    wHeader th ah name = fixedHdr magic versionMajor versionMinor usizeSize th ah ++ (leBytes 8 name.length ++ name) := by
+  simp [wHeader, fixedHdr, magic, leBytes, magicBytes, leVal, versionMajor, versionMinor, usizeSize]
+
+end Eps.C10
+
+namespace Eps.C10
+open Eps
+
+/-- Every content of the 29 fixed bytes is `fixedHdr` of in-range field values: the decision
+    theorem therefore speaks about every single-bit flip (and every other corruption) of them. -/
+theorem fixedHdr_surjective (h : B) (hl : h.length = 29) :
+    ∃ m maj min us sth sah, m < 2^64 ∧ maj < 2^16 ∧ min < 2^16 ∧ us < 2^8 ∧ sth < 2^64 ∧ sah < 2^64 ∧
+      h = fixedHdr m maj min us sth sah := by
+  refine ⟨leVal (h.take 8), leVal ((h.drop 8).take 2), leVal ((h.drop 10).take 2), leVal ((h.drop 12).take 1),
+    leVal ((h.drop 13).take 8), leVal ((h.drop 21).take 8), ?_, ?_, ?_, ?_, ?_, ?_, ?_⟩
+  · have := leVal_lt (h.take 8); simpa [hl] using this
+  · have := leVal_lt ((h.drop 8).take 2); simpa [hl] using this
+  · have := leVal_lt ((h.drop 10).take 2); simpa [hl] using this
+  · have := leVal_lt ((h.drop 12).take 1); simpa [hl] using this
+  · have := leVal_lt ((h.drop 13).take 8); simpa [hl] using this
+  · have := leVal_lt ((h.drop 21).take 8); simpa [hl] using this
+  · unfold fixedHdr
+    have e1 := leBytes_leVal (h.take 8)
+    have e2 := leBytes_leVal ((h.drop 8).take 2)
+    have e3 := leBytes_leVal ((h.drop 10).take 2)
+    have e4 := leBytes_leVal ((h.drop 12).take 1)
+    have e5 := leBytes_leVal ((h.drop 13).take 8)
+    have e6 := leBytes_leVal ((h.drop 21).take 8)
+    simp only [List.length_take, List.length_drop, hl] at e1 e2 e3 e4 e5 e6
+    rw [show min 8 29 = 8 by decide] at e1
+    rw [show min 2 (29 - 8) = 2 by decide] at e2
+    rw [show min 2 (29 - 10) = 2 by decide] at e3
+    rw [show min 1 (29 - 12) = 1 by decide] at e4
+    rw [show min 8 (29 - 13) = 8 by decide] at e5
+    rw [show min 8 (29 - 21) = 8 by decide] at e6
+    rw [e1, e2, e3, e4, e5, e6]
+    have t1 : h = h.take 8 ++ h.drop 8 := (List.take_append_drop 8 h).symm
+    have t2 : h.drop 8 = (h.drop 8).take 2 ++ h.drop 10 := by
+      have := (List.take_append_drop 2 (h.drop 8)).symm
+      simpa [List.drop_drop] using this
+    have t3 : h.drop 10 = (h.drop 10).take 2 ++ h.drop 12 := by
+      have := (List.take_append_drop 2 (h.drop 10)).symm
+      simpa [List.drop_drop] using this
+    have t4 : h.drop 12 = (h.drop 12).take 1 ++ h.drop 13 := by
+      have := (List.take_append_drop 1 (h.drop 12)).symm
+      simpa [List.drop_drop] using this
+    have t5 : h.drop 13 = (h.drop 13).take 8 ++ h.drop 21 := by
+      have := (List.take_append_drop 8 (h.drop 13)).symm
+      simpa [List.drop_drop] using this
+    have t6 : h.drop 21 = (h.drop 21).take 8 := by
+      rw [List.take_of_length_le]; simp [hl]
+    conv => lhs; rw [t1, t2, t3, t4, t5, t6]
+    simp only [List.append_assoc]
+
 end Eps.C10
